@@ -424,7 +424,10 @@ class TileCreator(object):
         query = MapQuery(tile_bbox, self.grid.tile_size, self.grid.srs,
                          self.tile_mgr.request_format, dimensions=self.dimensions)
         with self.tile_mgr.lock(tile):
-            if not self.is_cached(tile, dimensions=dimensions):
+            # Re-check with a fresh tile object: `tile` may carry the data and timestamp that were
+            # loaded before we waited for the lock (connection based caches keep them), which would
+            # hide a refresh done by the previous lock holder.
+            if not self.is_cached(Tile(tile.coord), dimensions=self.dimensions):
                 source = None
                 try:
                     source = self._query_sources(query)
@@ -455,7 +458,9 @@ class TileCreator(object):
                 if source.cacheable:
                     self.cache.store_tile(tile)
             else:
-                self.cache.load_tile(tile)
+                # created or refreshed by someone else in the meantime: drop what we loaded before
+                tile.source = None
+                self.cache.load_tile(tile, dimensions=self.dimensions)
         return [tile]
 
     def _query_sources(self, query):
